@@ -72,7 +72,7 @@ func block(letter byte, seed int64) []byte {
 	return b
 }
 
-var fileBlocks = [][2]string{{"F1", "XY"}, {"F2", "XYZ"}, {"F3", "XY"}, {"F4", "ZZ"}, {"F5", "Y"}, {"F6", "XT"}}
+var fileBlocks = [][2]string{{"F1", "XY"}, {"F2", "XYZ"}, {"F3", "XY"}, {"F4", "ZZ"}, {"F5", "Y"}, {"F6", "XT"}, {"F7", "ZT"}}
 
 func addrRand(r *rand.Rand) boson.Address {
 	b := make([]byte, 32)
